@@ -393,3 +393,37 @@ Theorem pinned_pooled_claims_refuted :
   seen1 = None /\ seen2 = Some [(10, VNum 7); (20, VOther 1)] /\
   map jctx (run_jwt mac [] (mkJcfg 5 None) [(1000, CToken forged); (1000, CToken good)]) = [[]; [(10, VNum 7)]].
 Proof. vm_compute. repeat split; reflexivity. Qed.
+
+(* ---- seeded/C18-11: the router hands the route's chain a request whose URL.Path is the CLEANED path ----
+   ("handlers were seeing /static/../admin/x").  The signature verifier in that chain then signs over the
+   cleaned path: a header signed for path 1 verifies for every spelling the router cleans to 1. *)
+Definition with_path (p : Z) (q : sreq) : sreq :=
+  mkSreq (q_jnow q) (q_cred q) (q_now q)
+         (mkReq (r_method (q_cs q)) p (r_query (q_cs q)) (r_xuri (q_cs q)) (r_hdr (q_cs q)) (r_clen (q_cs q)) (r_body (q_cs q)))
+         (q_resp q).
+
+(* the router of the variant: look up under the cleaned path, serve the request REWRITTEN to it *)
+Definition pinned_serve_cleaned (clean : Z -> Z) (tab : list bound) (q : sreq) :=
+  snd (serve_recv false (fun _ _ _ => 0) pin_rsa pin_cmac (fun _ => 9) (fun _ => true) (fun _ b => b) (fun _ b => b)
+                  (fun b => b) (fun b => Some b) false clean 1024 tab [] (with_path (clean (r_path (q_cs q))) q)).
+
+(* one strict group, route POST (3) on path 1; path 2 is an alias the router cleans to 1 ("/1/").
+   The request goes to path 2 with a signature made for path 1. *)
+Definition pin_clean (p : Z) : Z := if p =? 2 then 1 else p.
+Definition pin_alias_groups := [ mkGroup None (Some (mkSig true [(1, 1)] 10)) [(3, 1)] ].
+Definition pin_alias_req :=
+  mkSreq 0 CMissing 505 (mkReq 3 2 1 None (mkHdr (Some 1) (Some 1) (Some (pin_cmac 3 (1, 3, 1, 1, 9)))) 0 []) [].
+
+Theorem pinned_router_cleans_then_verifies_refuted :
+  let tab := fst (bind (fun _ => true) pin_alias_groups []) in
+  (* the variant runs the handler for the alias *)
+  o_ran (s_out (pinned_serve_cleaned pin_clean tab pin_alias_req)) = true /\
+  (* the modelled server finds the same route and answers 403: the signature does not cover path 2 *)
+  s_out (snd (serve_recv false (fun _ _ _ => 0) pin_rsa pin_cmac (fun _ => 9) (fun _ => true) (fun _ b => b) (fun _ b => b)
+                         (fun b => b) (fun b => Some b) false pin_clean 1024 tab [] pin_alias_req))
+    = mkHout false 403 [] [] false /\
+  (* and for the canonical spelling both run it *)
+  o_ran (s_out (pinned_serve_cleaned pin_clean tab (with_path 1 pin_alias_req))) = true /\
+  o_ran (s_out (snd (serve_recv false (fun _ _ _ => 0) pin_rsa pin_cmac (fun _ => 9) (fun _ => true) (fun _ b => b) (fun _ b => b)
+                                (fun b => b) (fun b => Some b) false pin_clean 1024 tab [] (with_path 1 pin_alias_req)))) = true.
+Proof. vm_compute. repeat split; reflexivity. Qed.
